@@ -45,6 +45,8 @@ fn t(signals: Vec<SigSpec>, header: &[&str], stmts: Vec<Stmt>, layout: Vec<(&str
             seed: 7,
             overrides_write: true,
             in_place: false,
+            alternate_memory: false,
+            hold: 1,
             faults: vec![],
         },
         draws: vec![],
